@@ -69,7 +69,7 @@ CHECKS = [
              "Copy-on-Write; timestamps as integers (absolute time); dropna().empty as a monotone predicate of the window",
      "not_covered": ["unsorted input (pandas raises)", "values inside the slice beyond 'only the last row is blanked' (frame ghost state)"],
      },
-    {"id": "C07", "level": "proof", "modules": ["contracts.C07_mask", "contracts.C19_aggregation"], "bounded": ["bounded.C07_mask", "bounded.pandas_contracts"],
+    {"id": "C07", "level": "proof", "modules": ["contracts.C07_mask", "contracts.C19_aggregation", "contracts.C04_gate"], "bounded": ["bounded.C07_mask", "bounded.pandas_contracts"],
      "technique": "deductive verification on a row-wise model of pandas (pyvc symbolic execution of the real _predict on one arbitrary row, z3)",
      "text": "The real DailyModel._predict (with _initialize_data, _meter_segment, _predict_submodel) is executed on one arbitrary row with "
              "explicitly tagged NaN / +-inf cells: in the returned frame predicted is present iff observed is present, a day without a finite "
